@@ -110,6 +110,14 @@ fn program_of(case: &Case) -> Vec<El> {
             els.push(El::Op(*op));
             els
         }
+        Case::Cond { cond, code, shape, below } if *shape == 16 => {
+            // OP_RETURN in the first branch, followed there by a conditional that is never run (but has to be understood)
+            let mut els: Vec<El> = below.iter().map(|b| push_el(&alpha(*b))).collect();
+            els.push(push_el(&alpha(*cond)));
+            els.push(El::If { code: *code, pass: vec![El::Op(0x52), El::Op(106), El::Op(0x51), El::If { code: 99, pass: vec![El::Op(0x55)], fail: Some(vec![]) }], fail: Some(vec![El::Op(0x53), El::Op(0x51), El::If { code: 100, pass: vec![], fail: None }]) });
+            els.push(El::Op(0x58));
+            els
+        }
         Case::Cond { cond, code, shape, below } if shape % 16 >= 13 => {
             // a well-formed conditional, then a top-level OP_RETURN, then junk that does not balance (never reached)
             let mut els: Vec<El> = below.iter().map(|b| push_el(&alpha(*b))).collect();
@@ -388,13 +396,29 @@ fn elem_desc(e: Option<&El>) -> String {
 /// Lock-step execution of the library interpreter and the model; shared with C16 and the fuzz target.
 /// Returns labels through `o`.
 pub fn lockstep(program: &[El], via_bits: bool, o: &mut Outcome) -> Result<(), Failure> {
-    // three routes to the Script object: its bytes; the nested elements; and, for every other element-built case, the
-    // written-out elements (OP_IF / OP_ELSE / OP_ENDIF as plain opcodes, the way Script::push would assemble them)
-    // a conditional opcode on its own (behind a top-level OP_RETURN) can only be assembled element by element
+    lockstep_route(program, via_bits, None, o)
+}
+
+/// `force`: Some(0) bytes, Some(1) nested elements, Some(2) written-out elements, Some(3) blocks holding written-out conditionals
+pub fn lockstep_route(program: &[El], via_bits: bool, force: Option<u8>, o: &mut Outcome) -> Result<(), Failure> {
+    // four routes to the Script object: its bytes; the nested elements; the written-out elements (OP_IF / OP_ELSE /
+    // OP_ENDIF as plain opcodes, the way Script::push would assemble them); blocks whose branches hold written-out conditionals.
+    // A conditional opcode on its own (behind a top-level OP_RETURN) can only be assembled element by element.
     let bare_open = program.iter().any(|e| matches!(e, El::Op(99 | 100)));
-    let flat = bare_open || (via_bits && program.len() % 2 == 1 && gs::has_if(program) && !im::unbalanced(program));
-    // mixed: the outer conditionals as blocks, the conditionals inside their branches written out as plain opcodes
-    let mixed = via_bits && !flat && !bare_open && program.len() % 3 == 0 && gs::depth(program) >= 2 && !im::unbalanced(program);
+    let balanced = !im::unbalanced(program);
+    let (via_bits, flat, mixed) = match force {
+        Some(0) if !bare_open => (false, false, false),
+        Some(1) if !bare_open => (true, false, false),
+        Some(2) if balanced || bare_open => (true, true, false),
+        Some(3) if balanced && !bare_open => (true, false, true),
+        Some(_) => return Ok(()),
+        None => {
+            let flat = bare_open || (via_bits && program.len() % 2 == 1 && gs::has_if(program) && balanced);
+            // mixed: the outer conditionals as blocks, the conditionals inside their branches written out as plain opcodes
+            let mixed = via_bits && !flat && !bare_open && program.len() % 3 == 0 && gs::depth(program) >= 2 && balanced;
+            (via_bits, flat, mixed)
+        }
+    };
     let script = if mixed {
         o.label("written-out-conditionals-inside-blocks");
         fn plain(t: tok::Tok) -> bsv::ScriptBit {
@@ -568,7 +592,7 @@ impl Property for C14 {
         vec![
             "every modelled opcode x every stack of depth 0..=arity+1 over the 18-value alphabet (4 values when arity >= 4)".into(),
             "nullary/unary opcodes x 0..=2 alt-stack items".into(),
-            "IF/NOTIF x 13 branch shapes (incl. an OP_RETURN in either branch followed by a stray OP_ENDIF, a second OP_ELSE at this level or inside a nested conditional of the taken / the skipped branch, a stray OP_ELSE before and a stray OP_ENDIF after the conditional) x 18 condition values x {0,1} items below".into(),
+            "IF/NOTIF x 17 branch shapes, each through all four construction routes (incl. an OP_RETURN followed by a conditional inside a branch, a well-formed conditional before a top-level OP_RETURN with an unclosed OP_IF behind it, an OP_RETURN in either branch followed by a stray OP_ENDIF, a second OP_ELSE at this level or inside a nested conditional of the taken / the skipped branch, a stray OP_ELSE before and a stray OP_ENDIF after the conditional) x 18 condition values x {0,1} items below".into(),
             "every unary numeric opcode on +/-(2^e + d), e in {0,7,8,15,16,23,24,31,32,39,63,64,127}, d in -2..=2, minimal and padded; every binary numeric opcode on pairs over e in {7,8,15,16,23,24,31,32,63,64}, d in -1..=1".into(),
             "PICK / ROLL / SPLIT / NUM2BIN / LSHIFT / RSHIFT x stacks of 1..4 items x 30 operand values from -2^64 to 2^100 x 0, 1, 2, 4 and 9 bytes of padding (operands of up to 22 bytes)".into(),
             "OP_SIZE / OP_DEPTH / byte-string opcodes on items of 127..65536 bytes (OP_SIZE also 8 MiB -/+ 1) and above 126..257 items".into(),
@@ -679,7 +703,7 @@ impl Property for C14 {
             }
         }
         for code in [99u8, 100] {
-            for shape in 0..16u8 {
+            for shape in 0..17u8 {
                 for cond in 0..ALPHABET.len() as u8 {
                     for below in [vec![], vec![5u8]] {
                         idx += 1;
@@ -748,7 +772,15 @@ impl Property for C14 {
                 o.label_if(*pad >= 128, "depth>=128");
             }
         }
-        lockstep(&program, via_bits, &mut o)?;
+        match case {
+            // the enumerated conditional shapes go through every construction route
+            Case::Cond { .. } => {
+                for route in 0..4u8 {
+                    lockstep_route(&program, via_bits, Some(route), &mut o)?;
+                }
+            }
+            _ => lockstep(&program, via_bits, &mut o)?,
+        }
         Ok(o)
     }
 }
